@@ -397,7 +397,9 @@ func init() {
 		if len(good) > 1 {
 			samples = append(samples, map[string]interface{}{"body": string(good[len(good)/2].concrete), "case": good[len(good)/2]}, map[string]interface{}{"body": string(good[len(good)-1].concrete), "case": good[len(good)-1]})
 		}
+		csCov := clientSessionEngine(run, tier)
 		run.Finish("model_checking", evid.Coverage{
+			"clientsession": csCov,
 			"states": mc.Distinct, "transitions": mc.Generated, "traces_validated_against_impl": len(good), "messages": len(cases),
 			"samples": samples, "checker_cmd": mc.Cmd,
 		}, []string{"bodies over {'.', bare LF, CRLF, other} up to length 5 (quick) / 7 (thorough) plus seeded random longer ones; Write partitions whole / one random split / bytewise; verdict accept / reject with a marker error; SMTP and LMTP",
